@@ -19,10 +19,10 @@ def _has_var(t, cache):
     return r
 
 
-def spec_apps(formulas, seen, cache):
+def spec_apps(formulas, seen, cache, reveal=()):
     """ground applications of defined spec functions occurring in the formulas (outside binders)"""
     out = []
-    names = {f.name: f for f in SPEC.values() if f.define is not None}
+    names = {f.name: f for f in SPEC.values() if f.define is not None and (not f.opaque or f.name in reveal)}
     visited = set()
 
     def walk(t):
@@ -44,13 +44,13 @@ def spec_apps(formulas, seen, cache):
     return out
 
 
-def instantiate(formulas, depth=DEPTH):
+def instantiate(formulas, depth=DEPTH, reveal=()):
     """Add the defining equation of every defined spec-function application, `depth` rounds."""
     seen, cache = set(), {}
     extra = []
     frontier = list(formulas)
     for _ in range(depth):
-        apps = spec_apps(frontier, seen, cache)
+        apps = spec_apps(frontier, seen, cache, reveal)
         if not apps:
             break
         new = []
@@ -66,7 +66,7 @@ def build_query(vc, depth=DEPTH, extra_assumptions=()):
     # pattern-less lemmas are only usable through explicit ground instances (hints); giving the bare
     # quantifier to the solver would only start model-based instantiation
     lem = [LEMMAS[n].formula for n in sorted(vc.uses) if n in LEMMAS and (LEMMAS[n].patterns or not LEMMAS[n].vars)]
-    inst = instantiate(fs, depth)
+    inst = instantiate(fs, depth, getattr(vc, "reveal", ()))
     s = z3.Solver()
     for f in lem + fs + inst:
         s.add(f)
